@@ -128,7 +128,9 @@ type Kernel struct {
 	Script []CmdRec
 	// FailAt > 0 makes the FailAt-th command (counted from the last ResetFault) fail without effect.
 	FailAt int
-	count  int
+	// FailFrom > 0 makes every command from the FailFrom-th on fail without effect (a persistent failure, e.g. a held lock).
+	FailFrom int
+	count    int
 	// Serialize makes Run safe for concurrent callers (commands are applied one at a time, like under the xtables lock).
 	Serialize bool
 	mu        sync.Mutex
@@ -173,7 +175,7 @@ func (k *Kernel) ClearTable(name string) {
 }
 
 // ResetFault restarts the command counter used by FailAt.
-func (k *Kernel) ResetFault(at int) { k.FailAt, k.count = at, 0 }
+func (k *Kernel) ResetFault(at int) { k.FailAt, k.FailFrom, k.count = at, 0, 0 }
 
 // Count returns the number of commands since the last ResetFault.
 func (k *Kernel) Count() int { return k.count }
@@ -793,7 +795,7 @@ func (k *Kernel) Run(cmd string, args []string, stdin []byte) (string, error) {
 	line := cmd + " " + strings.Join(args, " ")
 	k.count++
 	k.Cmds = append(k.Cmds, line)
-	if k.FailAt > 0 && k.count == k.FailAt {
+	if (k.FailAt > 0 && k.count == k.FailAt) || (k.FailFrom > 0 && k.count >= k.FailFrom) {
 		k.Cmds[len(k.Cmds)-1] = "FAULT " + line
 		return "injected failure", utilexec.CodeExitError{Err: fmt.Errorf("exit status 4"), Code: 4}
 	}
